@@ -522,6 +522,7 @@ fn exec_prepared(t: &CeremonyTrace, p: &Prepared, rec: &mut RunRecord, seed: u64
 }
 
 fn exec_and_fold(t: &CeremonyTrace, rec: &mut RunRecord, seed: u64, index: u64, prop: &str) -> Vec<Finding> {
+    crate::crash::write_current_trace(&Trace::Ceremony(t.clone()));
     let p = prepare(t);
     exec_prepared(t, &p, rec, seed, index, prop, None)
 }
